@@ -223,6 +223,42 @@ for e, pf in ((“x + 1”, lambda x: x + 1), ("2 * t", lambda t: 2 * t), ("abs(
                    bounds="bare scalar records: concrete values chosen by selector k in 0..3 (explored, not exhausted)")
 
 
+def scalar_expr_modules(timeout=40):
+    """expressions that call math / numpy functions on a field whose name is also an attribute of those modules
+    (size, power, angle, real, std): bare scalars and dict records must both evaluate like the plain function"""
+    body = """
+import math
+k = sel(k, 0, 1, 2); e = sel(e, 0, 1, 2, 3, 4, 5, 6)
+with NT():
+    v = [0.0, 1.5, 4.0][k]
+    CASES = [("math.sqrt(size) + 1", "size", lambda t: math.sqrt(t) + 1), ("np.sqrt(power)", "power", lambda t: math.sqrt(t)),
+             ("numpy.abs(angle) + 1", "angle", lambda t: abs(t) + 1), ("math.floor(real)", "real", lambda t: math.floor(t)),
+             ("sqrt(std) * 2", "std", lambda t: math.sqrt(t) * 2), ("math.exp(log1)", "log1", lambda t: math.exp(t)),
+             ("np.log(size + 1)", "size", lambda t: math.log(t + 1))]
+    expr, field, pf = CASES[e]
+    res = ""
+    U.np = _realnp  # concrete run: the real module, not the array_equal proxy (restored below)
+    for rec in (v, {field: v}, Rec(**{field: v}), v):
+        try:
+            got = U.UserFcn(expr)(rec)
+            if abs(float(got) - pf(v)) > 1e-12: res = res or "module-function-expression-differs:" + expr
+        except Exception as ex:
+            res = res or "module-function-expression-raises:%s:%s" % (expr, type(ex).__name__)
+    a = H.Sum(expr); b = H.Sum(lambda d: pf(d))
+    try:
+        a.fill(v); a.fill(v + 1.0)
+    except Exception as ex:
+        res = res or "aggregator-over-expression-cannot-be-filled:%s:%s" % (expr, type(ex).__name__)
+    b.fill(v); b.fill(v + 1.0)
+    if not res and (abs(a.sum - b.sum) > 1e-12 or a.entries != b.entries): res = "aggregator-filled-differently:" + expr
+    if SYMBOLIC: U.np = _NPProxy()
+if res: return res
+"""
+    return Harness("C17/expr/module-functions", [("k", "int"), ("e", "int")], "0 <= k <= 2 and 0 <= e <= 6", body, timeout=timeout, setup=C17_SETUP,
+                   tree="7 expressions calling math./np./numpy. functions on a field named like a module attribute",
+                   bounds="concrete values by selector (untraced); bare scalar, dict and attribute records; Sum filled twice")
+
+
 def pre_checks(tier, workdir):
     """validate the one-function numpy model (array_equal on scalars) against the real numpy"""
     import itertools
@@ -251,6 +287,7 @@ def harnesses(tier):
     for i, (e, f) in enumerate(EXPRS):
         out.append(string_expr(i, e, f, timeout=60 if tier == "quick" else 180))
     out.append(scalar_expr())
+    out.append(scalar_expr_modules())
     out.append(mixed_shapes())
     out.append(cached_arrays())
     return out
